@@ -37,6 +37,8 @@ type Result struct {
 	Counters    map[string]int      `json:"counters"`
 	Tables      map[string][]string `json:"tables,omitempty"`
 	Infra       []string            `json:"infra,omitempty"` // infrastructure problems: exit 2
+	Drift       []Finding           `json:"drift,omitempty"` // the code departs from the model where no property is at stake
+	DriftCount  map[string]int      `json:"drift_count,omitempty"`
 	shapes      map[string]struct{}
 	tables      map[string]map[string]struct{}
 }
@@ -74,6 +76,21 @@ func (r *Result) saturated(props ...string) bool {
 		}
 	}
 	return false
+}
+
+// drift records that the code behaves differently from the specification in a way that the
+// property does not forbid (the property-level checks of the same case passed): the model needs
+// updating, but it is not a violation.
+func (r *Result) drift(f Finding) {
+	r.mu.Lock()
+	defer r.mu.Unlock()
+	if r.DriftCount == nil {
+		r.DriftCount = map[string]int{}
+	}
+	r.DriftCount[f.Property+" "+f.Aspect]++
+	if r.DriftCount[f.Property+" "+f.Aspect] <= 3 {
+		r.Drift = append(r.Drift, f)
+	}
 }
 
 func (r *Result) known(f Finding) {
